@@ -83,6 +83,8 @@ def make_judge(model, rec, Sid):
             t = model.natural(s)
         elif forced == "":
             rec.unspec("empty_forced_type")
+            if query_tail is not None:
+                return
             # internal consistency only
             if got["bool"] and not model.accepts(got["type"], got["str"]):
                 rec.violation("inconsistent_typed", case, str(got))
@@ -99,7 +101,7 @@ def make_judge(model, rec, Sid):
                 rec.unspec("has_query")
                 return
             rec.count("untyped_with_query_tail")
-            case = dict(case, s=s_full)
+            case = dict(case, s=s_full, base=s)       # (base: the part before the query, what the typing decision is about)
             bad = []
             if got["bool"] or got["type"] or got["fields"] or got["len"]:
                 bad.append("expected untyped, got type=%r fields=%r" % (got["type"], got["fields"]))
@@ -226,6 +228,8 @@ def worker(args):
         elif r < 0.94:
             # any string: also one with a query tail (its typing is C04's subject - here it must simply not fail)
             base = vocab.valid_string(t, rng) if rng.random() < 0.7 else gen.mutate_string(vocab.valid_string(t, rng), rng, vocab, lits)[0]
+            if rng.random() < 0.3:
+                base = gen.uri_prefix(base, t.name, rng, model)[0]        # (known, unknown, wrong or doubled type prefixes)
             s = base + "?" + rng.choice(["", "", "foo=bar", "a=b&c=d", "%s=zz" % t.keys[-1], "%s=*" % t.keys[0], "x", "=", "&", "foo={bar}", "a=b?c=d",
                                          "&".join("k%d=v" % i for i in range(12)), "%s=~x" % t.keys[-1], "foo=bar/baz"])
             cls = "with_query_tail"
